@@ -122,7 +122,9 @@ def judge(c, rec):
     if not (e1 <= 0.05):
         rec.violation(key + "/baseline-nrmse-" + band(e1), c, "NRMSE on the baseline year %.4f of mean usage (limit 0.05); selected %s" % (e1, getattr(m, "best_combination", "?")))
     if not (e2 <= 0.05):
-        rec.violation(key + "/other-year-nrmse-" + band(e2), c, "NRMSE on the other weather year %.4f of mean usage (limit 0.05); selected %s" % (e2, getattr(m, "best_combination", "?")))
+        # a second year from another climate (its days leave the baseline's temperature range) is its own class of key
+        climate = "/other-climate" if (fam == "billing" and tuple(c.get("year2", (0.0, 0.0))) != (0.0, 0.0) and outside > 0) else ""
+        rec.violation(key + "/other-year-nrmse-" + band(e2) + climate, c, "NRMSE on the other weather year %.4f of mean usage (limit 0.05); selected %s" % (e2, getattr(m, "best_combination", "?")))
     tot = float(np.sum(y))
     for p, truth_tot, which in ((p1, tot, "baseline"), (p2, float(np.sum(y2)), "other")):
         if c["hs"] == 0:
